@@ -104,6 +104,8 @@ mod space;
 mod util;
 #[allow(private_bounds)]
 mod voronoi;
+#[cfg(meshless_voro_verif)]
+pub mod verif_hooks;
 
 pub use voronoi::{
     convex_cell::Vertex, half_space::HalfSpace, integrals, ConvexCell, Dimensionality, Voronoi,
